@@ -77,7 +77,7 @@ ApplyX(s, c) ==
              ELSE Ok(IF c.op = "uniquify" THEN Uniquify(s, c.n) ELSE Flatten(s, c.n))
       [] c.op = "q" -> [s |-> s, out |-> "ok", ret |-> <<>>]
       [] c.op = "compare" -> [s |-> s, out |-> "ok", ret |-> <<Differs(s, c.a, c.b)>>]
-      [] c.op \in {"edif_read", "edif_rt", "vlog_read", "vlog_rt"} ->      \* model: a file round trip yields a self-contained copy
+      [] c.op \in {"edif_read", "edif_rt", "vlog_read", "vlog_rt", "eblif_read", "eblif_rt"} ->      \* model: a file round trip yields a self-contained copy
              IF ~(c.n \in IdsN(s)) THEN Refuse(s)
              ELSE LET r == CloneOf(s, "N", c.n) IN OkRet(r.s, <<r.root>>)
       [] c.op = "clone" ->
